@@ -20,7 +20,10 @@ def rand_rnote(rng, drum=False, rel=0.2, cont=0.2, rest=0.12, systems="sssshhccb
     if w < rest + cont:
         return {"kind": "l", "val": 0, "oct": 0, "dur": dur, "amp": 66}
     if drum:
-        return {"kind": "d", "val": rng.randrange(12), "oct": rng.choice([-2, -2, -1]), "dur": dur, "amp": rng.choice([66, 80, 100])}
+        n = {"kind": "d", "val": rng.randrange(12), "oct": rng.choice([-2, -2, -1]), "dur": dur, "amp": rng.choice([66, 80, 100])}
+        if accs and rng.random() < 0.1:
+            n["acc"] = rng.choice(ACCS)        # what chord(drums=s2.min.o(-2)) stores: a drum note keeps the accidental, its pitch ignores it
+        return n
     k = rng.choice(systems)
     n = {"kind": k, "val": rng.randrange(12 if k in "ha" else 7), "oct": rng.choice([0, 0, 0, 1, -1]), "dur": dur,
          "amp": rng.choice([66, 66, 40, 90, 127, 1])}
@@ -33,6 +36,8 @@ def rand_rnote(rng, drum=False, rel=0.2, cont=0.2, rest=0.12, systems="sssshhccb
             n["acc"] = rng.choice(ACCS)
         if k in "sh" and rng.random() < 0.1:
             n["mode"] = rng.choice(MODES)
+    if accs and k in "hacb" and not n.get("dir") and rng.random() < 0.08:
+        n["acc"] = rng.choice(ACCS)            # an accidental on a note that is not a scale note: kept by the note, ignored by its pitch
     if accs and k in "cb" and rng.random() < 0.12:
         # a per-note mode on a chord tone or bass tone (absolute or relative): the arpeggio is the chord's own, the mode does not move it
         n["mode"] = rng.choice(MODES)
